@@ -273,20 +273,22 @@ Section M.
         | None => None end
       else run #0 #0 #0 #0.
 
+    Definition ev_par (a : A_ev F) : Evaporation.EvPar (F:=F) :=
+      {| Evaporation.ep_steps := evA_steps a; Evaporation.ep_simoff := evA_simoff a; Evaporation.ep_zmin := evA_zmin a;
+         Evaporation.ep_zmax := evA_zmax a; Evaporation.ep_rew := evA_rew a; Evaporation.ep_kex := evA_kex a;
+         Evaporation.ep_fwcc := evA_fwcc a; Evaporation.ep_fwrelexp := evA_fwrelexp a; Evaporation.ep_fevap := evA_fevap a;
+         Evaporation.ep_caltype := evA_caltype a; Evaporation.ep_senescence := evA_senescence a;
+         Evaporation.ep_irrmethod := evA_method a; Evaporation.ep_wetsurf := evA_wetsurf a;
+         Evaporation.ep_mulches := evA_mulches a; Evaporation.ep_fmulch := evA_fmulch a;
+         Evaporation.ep_mulchpct := evA_mulchpct a |}.
+    Definition ev_state (a : A_ev F) : Evaporation.EvState (F:=F) :=
+      {| Evaporation.es_tsc := evA_tsc a; Evaporation.es_dap := evA_dap a; Evaporation.es_wsurf := evA_wsurf a;
+         Evaporation.es_evapz := evA_evapz a; Evaporation.es_stage2 := evA_stage2 a; Evaporation.es_delayedcds := #(evA_dcd a);
+         Evaporation.es_gddcum := evA_gddcum a; Evaporation.es_delayedgdds := evA_dgdd a; Evaporation.es_ccxw := evA_ccxw a;
+         Evaporation.es_ccadj := evA_ccadj a; Evaporation.es_ccxact := evA_ccxact a; Evaporation.es_cc := evA_cc a;
+         Evaporation.es_prematsenes := evA_premat a; Evaporation.es_surf := evA_surf a; Evaporation.es_wstage2 := evA_wstage2 a |}.
     Definition c_ev (p : list (Comp F)) (a : A_ev F) : option (R_ev F) :=
-      let par := {| Evaporation.ep_steps := evA_steps a; Evaporation.ep_simoff := evA_simoff a; Evaporation.ep_zmin := evA_zmin a;
-                    Evaporation.ep_zmax := evA_zmax a; Evaporation.ep_rew := evA_rew a; Evaporation.ep_kex := evA_kex a;
-                    Evaporation.ep_fwcc := evA_fwcc a; Evaporation.ep_fwrelexp := evA_fwrelexp a; Evaporation.ep_fevap := evA_fevap a;
-                    Evaporation.ep_caltype := evA_caltype a; Evaporation.ep_senescence := evA_senescence a;
-                    Evaporation.ep_irrmethod := evA_method a; Evaporation.ep_wetsurf := evA_wetsurf a;
-                    Evaporation.ep_mulches := evA_mulches a; Evaporation.ep_fmulch := evA_fmulch a;
-                    Evaporation.ep_mulchpct := evA_mulchpct a |} in
-      let st := {| Evaporation.es_tsc := evA_tsc a; Evaporation.es_dap := evA_dap a; Evaporation.es_wsurf := evA_wsurf a;
-                   Evaporation.es_evapz := evA_evapz a; Evaporation.es_stage2 := evA_stage2 a; Evaporation.es_delayedcds := #(evA_dcd a);
-                   Evaporation.es_gddcum := evA_gddcum a; Evaporation.es_delayedgdds := evA_dgdd a; Evaporation.es_ccxw := evA_ccxw a;
-                   Evaporation.es_ccadj := evA_ccadj a; Evaporation.es_ccxact := evA_ccxact a; Evaporation.es_cc := evA_cc a;
-                   Evaporation.es_prematsenes := evA_premat a; Evaporation.es_surf := evA_surf a; Evaporation.es_wstage2 := evA_wstage2 a |} in
-      match Evaporation.soil_evaporation par p st (evA_th a) (evA_et0 a) (evA_infl a) (evA_rain a) (evA_irr a) (evA_gs a) with
+      match Evaporation.soil_evaporation (ev_par a) p (ev_state a) (evA_th a) (evA_et0 a) (evA_infl a) (evA_rain a) (evA_irr a) (evA_gs a) with
       | Some o => Some {| evR_epot := Evaporation.eo_epot o; evR_th := Evaporation.eo_th o; evR_stage2 := Evaporation.eo_stage2 o;
                           evR_wstage2 := Evaporation.eo_wstage2 o; evR_wsurf := Evaporation.eo_wsurf o; evR_surf := Evaporation.eo_surf o;
                           evR_evapz := Evaporation.eo_evapz o; evR_es := Evaporation.eo_es o; evR_espot := Evaporation.eo_espot o |}
@@ -319,10 +321,10 @@ Section M.
       | None => None end.
 
     (* `NewCond.wt_in_soil == True`: None compares unequal *)
+    Definition gi_wts (a : A_gi F) : bool := match giA_wtsoil a with Some b => b | None => false end.
     Definition c_gi (p : list (Comp F)) (a : A_gi F) : option (R_gi F) :=
-      let wts := match giA_wtsoil a with Some b => b | None => false end in
-      do zgw <- (match giA_zgw a with Some z => Some z | None => if wts then None else Some #0 end);
-      match Groundwater.groundwater_inflow p (giA_th a) wts zgw with
+      do zgw <- (match giA_zgw a with Some z => Some z | None => if gi_wts a then None else Some #0 end);
+      match Groundwater.groundwater_inflow p (giA_th a) (gi_wts a) zgw with
       | Some (th, g) => Some {| giR_th := th; giR_gwin := g |} | None => None end.
 
     Definition c_hr (a : A_hr F) : option (R_hr F) :=
